@@ -214,4 +214,127 @@ theorem rcUpC_eq (size : Int) (hs : 0 < size) (hsI : inInt size) : ∀ (fuel : N
         exact rcUpC_eq size hs hsI fuel _ h'
       · rfl
 
+/-! ### histories of the typed ring: push / (tail(); pop()) -/
+
+/-- the producer pushes, the consumer reads `tail()` and then calls `pop()` -/
+inductive TOp (α : Type) where
+  | push (x : α)
+  | pop
+
+def stepT {α : Type} (t : TRing α) : TOp α → Option (TRing α × Option α)
+  | .push x => (t.push x).map fun t' => (t', none)
+  | .pop =>
+    match t.tail with
+    | none => none
+    | some v => t.pop.map fun t' => (t', some v)
+
+def runT {α : Type} : TRing α → List (TOp α) → Option (TRing α × List (Option α))
+  | t, [] => some (t, [])
+  | t, op :: ops =>
+    match stepT t op with
+    | none => none
+    | some (t', o) =>
+      match runT t' ops with
+      | none => none
+      | some (t'', os) => some (t'', o :: os)
+
+/-- reference queue; `none` = outside the contract of the typed ring (push needs
+room, pop needs an element: the code does not test, see `ring_push_full_pop_empty`) -/
+def specT {α : Type} (cap : Nat) (q : List α) : TOp α → Option (List α × Option α)
+  | .push x => if q.length < cap then some (q ++ [x], none) else none
+  | .pop =>
+    match q with
+    | [] => none
+    | y :: q' => some (q', some y)
+
+def runSpecT {α : Type} (cap : Nat) : List α → List (TOp α) → Option (List α × List (Option α))
+  | q, [] => some (q, [])
+  | q, op :: ops =>
+    match specT cap q op with
+    | none => none
+    | some (q', o) =>
+      match runSpecT cap q' ops with
+      | none => none
+      | some (q'', os) => some (q'', o :: os)
+
+def pushedT {α : Type} : List (TOp α) → List α
+  | [] => []
+  | .push x :: ops => x :: pushedT ops
+  | .pop :: ops => pushedT ops
+
+def deliveredT {α : Type} : List (Option α) → List α
+  | [] => []
+  | some v :: os => v :: deliveredT os
+  | none :: os => deliveredT os
+
+theorem runT_refines {α : Type} : ∀ (ops : List (TOp α)) {t : TRing α} {q q' : List α}
+    {outs : List (Option α)}, Abs t.r t.buf q →
+    runSpecT (t.r.size.toNat - 1) q ops = some (q', outs) →
+    ∃ t', runT t ops = some (t', outs) ∧ t'.r.size = t.r.size ∧ Abs t'.r t'.buf q'
+  | [], t, q, q', outs, h, hs => by
+      obtain ⟨rfl, rfl⟩ : q = q' ∧ [] = outs := by simpa [runSpecT] using hs
+      exact ⟨t, rfl, rfl, h⟩
+  | op :: ops, t, q, q', outs, h, hs => by
+      simp only [runSpecT] at hs
+      split at hs
+      · cases hs
+      · rename_i q1 o e
+        split at hs
+        · cases hs
+        · rename_i q2 os e2
+          obtain ⟨rfl, rfl⟩ : q2 = q' ∧ o :: os = outs := by simpa using hs
+          have step : ∃ t1, stepT t op = some (t1, o) ∧ t1.r.size = t.r.size ∧ Abs t1.r t1.buf q1 := by
+            cases op with
+            | push x =>
+              simp only [specT] at e
+              split at e
+              · rename_i hr
+                obtain ⟨rfl, rfl⟩ : q ++ [x] = q1 ∧ none = o := by simpa using e
+                obtain ⟨t1, e1, hs1, h1⟩ := TRing.push_abs x h hr
+                exact ⟨t1, by simp [stepT, e1], hs1, h1⟩
+              · cases e
+            | pop =>
+              cases q with
+              | nil => simp [specT] at e
+              | cons y q0 =>
+                obtain ⟨rfl, rfl⟩ : q0 = q1 ∧ some y = o := by simpa [specT] using e
+                obtain ⟨t1, e1, hs1, h1⟩ := TRing.pop_abs h
+                exact ⟨t1, by simp [stepT, TRing.tail_abs h, e1], hs1, h1⟩
+          obtain ⟨t1, e1, hs1, h1⟩ := step
+          rw [← hs1] at e2
+          obtain ⟨t2, e3, hs2, h2⟩ := runT_refines ops h1 e2
+          exact ⟨t2, by simp [runT, e1, e3], hs2.trans hs1, h2⟩
+
+theorem specT_conserves {α : Type} (cap : Nat) : ∀ (ops : List (TOp α)) {q q' : List α}
+    {outs : List (Option α)}, runSpecT cap q ops = some (q', outs) →
+    q ++ pushedT ops = deliveredT outs ++ q'
+  | [], q, q', outs, hs => by
+      obtain ⟨rfl, rfl⟩ : q = q' ∧ [] = outs := by simpa [runSpecT] using hs
+      simp [pushedT, deliveredT]
+  | op :: ops, q, q', outs, hs => by
+      simp only [runSpecT] at hs
+      split at hs
+      · cases hs
+      · rename_i q1 o e
+        split at hs
+        · cases hs
+        · rename_i q2 os e2
+          obtain ⟨rfl, rfl⟩ : q2 = q' ∧ o :: os = outs := by simpa using hs
+          have ih := specT_conserves cap ops e2
+          cases op with
+          | push x =>
+            simp only [specT] at e
+            split at e
+            · obtain ⟨rfl, rfl⟩ : q ++ [x] = q1 ∧ none = o := by simpa using e
+              simp only [pushedT, deliveredT]
+              rw [← ih]; simp
+            · cases e
+          | pop =>
+            cases q with
+            | nil => simp [specT] at e
+            | cons y q0 =>
+              obtain ⟨rfl, rfl⟩ : q0 = q1 ∧ some y = o := by simpa [specT] using e
+              simp only [pushedT, deliveredT, List.cons_append]
+              rw [ih]
+
 end Igris.C03
